@@ -115,6 +115,7 @@ class StubState:
 
     def _derive(self, tag, *a):
         s = StubState(self.vc, tag, self)
+        s.derived_by = (tag, a)
         self.vc.emit('state.' + tag, self, s, a)
         return s
 
@@ -156,7 +157,7 @@ class StubState:
 
 @harness('H1', targets='kopf._core.reactor.processing.process_changing_cause', props=['C02', 'C03', 'C05', 'C14'],
          clauses=['gate', 'closure_iff_done_or_skip', 'store_before_purge', 'essence_is_new', 'flag_only_set',
-                  'returns_delays', 'executes_selected_with_state'],
+                  'returns_delays', 'executes_selected_with_state', 'superseded_handlers_repurposed'],
          canaries=['canary.always_closes'],
          trusted=['progression.State (with_purpose/with_handlers/with_outcomes/done/delays/extras/store/purge) by contract G3/G4',
                   'execution.execute_handlers_once by contract X2', 'registry.get_handlers by contract R1'])
@@ -169,7 +170,8 @@ def H1(vc):
     from kopf._core.reactor import processing
     cr = vc.fin('cause.reason', list(R))
     A, B = {'spec': 'a'}, {'spec': 'b'}
-    oldnew = vc.fin('old/new', [(None, A), (A, A), (A, B), (A, None), (None, None)])
+    E_ = {}      # an EMPTY essence is a stored/built state too (falsy, not None)
+    oldnew = vc.fin('old/new', [(None, A), (A, A), (A, B), (A, None), (None, None), (E_, A), (A, E_), (E_, {}), (None, E_)])
     diffv = vc.fin('diff', [(), (('change', ('spec',), 'a', 'b'),)])
     body, patch, resource = Opaque('body'), Opaque('patch'), Opaque('resource')
 
@@ -219,6 +221,20 @@ def H1(vc):
         loop_state.append(s)
         return {'state': s}
 
+    def at_back(loc):
+        # a superseded cause's handlers that are still selected are re-purposed to the current cause, so that
+        # their progress is re-written by the store that follows the pre-purge (State.store only writes records
+        # that changed): a finished handler must not lose its record while the cycle is still open (C02, C14)
+        new = loc.get('state')
+        head = loop_state[-1]
+        found, cur = False, new
+        while isinstance(cur, StubState) and cur is not head:        # the lineage from the loop-head state
+            how = getattr(cur, 'derived_by', None)
+            if how is not None and how[0] == 'with_purpose' and how[1][0] is cr and how[1][1] is selected:
+                found = True
+            cur = cur.parent
+        vc.ensure('superseded_handlers_repurposed', isinstance(new, StubState) and cur is head and found)
+
     def element(loc, iterable):
         from pyvc.loader import _STOP
         if vc.nondet(2, 'extras exhausted?') == 0:
@@ -229,7 +245,8 @@ def H1(vc):
         'progression.deliver_results': lambda **kw: vc.emit('deliver_results', kw),
         'execution.execute_handlers_once': execute_handlers_once,
     }, loops={1: LoopSpec('for extra_purpose, counters in state.extras.items()',
-                          invariant=lambda loc: isinstance(loc.get('state'), StubState), havoc=havoc, element=element)})
+                          invariant=lambda loc: isinstance(loc.get('state'), StubState), havoc=havoc, element=element,
+                          at_backedge=at_back)})
     raised = None
     try:
         result = vc.drive(ld.fn(lifecycle=lifecycle, registry=registry, settings=settings, memory=memory, cause=cause))
@@ -289,3 +306,62 @@ def H1(vc):
         vc.ensure('returns_delays', result is post[0].delays)
     vc.canary('canary.always_closes', Eq(memory.fully_handled_once, True))
     return ('return', executed, len(final_purges), len(dstores))
+
+
+# ----------------------------------------------------------------------------------------------- R6
+@harness('R6', targets=['kopf._core.intents.registries.ResourceRegistry.iter_extra_fields',
+                        'kopf._core.intents.registries.ResourceRegistry.get_extra_fields'],
+         props=['C15', 'C04'],
+         clauses=['field_of_every_resource_handler', 'frame', 'set_of_all'], canaries=['canary.never_yields'],
+         trusted=['_matches_resource by contract (Selector.check: a boolean function of handler and resource)'])
+def R6(vc):
+    """
+    ResourceRegistry.iter_extra_fields: for an arbitrary registered handler (loop contract), its `field` is yielded
+    iff the handler serves the resource and has a field -- whatever its kind and its other settings
+    (reason, field_needs_change, value/old/new filters, ...).  These fields are what _detect_causes adds to the
+    old/new essences (H5), and the field/value criteria of ALL changing handlers are evaluated on those essences:
+    a field left out here makes a create/resume/delete handler's criterion see its field as absent (C15), and
+    changes of that field invisible (C04).
+    """
+    reg = registries.ChangingRegistry()
+    reg._handlers = Opaque('handlers-list')
+    resource = Opaque('resource')
+    fld = vc.fin('h.field', [None, (), ('spec', 'x'), ('status', 'phase')])
+    h = handlers.ChangingHandler(
+        id='h', fn=Opaque('fn'), param=None, errors=None, timeout=None, retries=None, backoff=None,
+        selector=Opaque('selector'), labels=None, annotations=None, when=None, field=resolve(fld),
+        value=vc.fin('h.value', [None, 'literal']),
+        reason=vc.fin('h.reason', [None] + list(R)), initial=vc.fin('h.initial', [None, True]),
+        deleted=None, requires_finalizer=vc.fin('h.requires_finalizer', [None, True]),
+        field_needs_change=vc.fin('h.field_needs_change', [None, False, True]),
+        old=vc.fin('h.old', [None, 'x']), new=vc.fin('h.new', [None, 'y']))
+    serves = vc.bool('handler serves the resource')
+    calls = []
+
+    def _matches_resource(handler, res):
+        calls.append((handler, res)); return serves
+    yielded = []
+
+    def element(loc, iterable):
+        vc.ensure('frame', iterable is reg._handlers)
+        if vc.nondet(2, 'exhausted?') == 0:
+            from pyvc.loader import _STOP
+            return _STOP
+        return h
+
+    def at_back(loc):
+        want = And(serves, bool(h.field))
+        vc.ensure('field_of_every_resource_handler', Iff(len(yielded) == 1, want))
+        vc.ensure('field_of_every_resource_handler', len(yielded) <= 1 and all(y is h.field or y == h.field for y in yielded))
+        vc.ensure('frame', all(ch is h and cr is resource for ch, cr in calls))
+        vc.canary('canary.never_yields', not yielded)
+    ld = vc.load('kopf._core.intents.registries', 'ResourceRegistry.iter_extra_fields', stubs={'_matches_resource': _matches_resource},
+                 loops={1: LoopSpec('for handler in self._handlers', element=element, at_backedge=at_back)})
+    for y in ld.fn(reg, resource):
+        yielded.append(y)
+    # get_extra_fields == the set of everything iter_extra_fields yields
+    ld2 = vc.load('kopf._core.intents.registries', 'ResourceRegistry.get_extra_fields')
+    probe = Opaque('registry')
+    probe.iter_extra_fields = lambda resource: iter([('spec', 'x'), ('status', 'phase'), ('spec', 'x')])
+    vc.ensure('set_of_all', ld2.fn(probe, resource=resource) == {('spec', 'x'), ('status', 'phase')})
+    return ('done', len(yielded))
